@@ -492,6 +492,144 @@ def init_lower_bounds(ctx, cls_qual: str) -> Dict[str, int]:
     return out
 
 
+# ------------------------------------------------------------------ state that outlives a call / late binding
+_MUT_CTORS = {"list", "dict", "set", "defaultdict", "OrderedDict", "deque", "Counter", "bytearray"}
+
+
+def _mutable_literal(v: ast.AST) -> bool:
+    return isinstance(v, (ast.List, ast.Dict, ast.Set, ast.ListComp, ast.DictComp, ast.SetComp)) or (
+        isinstance(v, ast.Call) and (dotted(v.func) or "").split(".")[-1] in _MUT_CTORS)
+
+
+def _name_mutated_or_kept(fn: Func, name: str) -> Optional[ast.AST]:
+    """a construct in fn that edits the object bound to `name` in place, or lets it escape (returned / stored / yielded)"""
+    for x in walk_no_defs(fn.node):
+        if isinstance(x, ast.Call) and isinstance(x.func, ast.Attribute) and x.func.attr in MUTATING_TAILS and isinstance(x.func.value, ast.Name) and x.func.value.id == name:
+            return x
+        if isinstance(x, (ast.Assign, ast.AugAssign)):
+            for t in (x.targets if isinstance(x, ast.Assign) else [x.target]):
+                if isinstance(t, ast.Subscript) and isinstance(t.value, ast.Name) and t.value.id == name:
+                    return x
+                if isinstance(x, ast.AugAssign) and isinstance(t, ast.Name) and t.id == name:
+                    return x
+            if isinstance(x, ast.Assign) and isinstance(x.value, ast.Name) and x.value.id == name and any(isinstance(t, (ast.Attribute, ast.Subscript)) for t in x.targets):
+                return x
+        if isinstance(x, (ast.Return, ast.Yield)) and isinstance(x.value, ast.Name) and x.value.id == name:
+            return x
+    return None
+
+
+def mutable_defaults(ctx, fn: Func) -> List[Tuple[str, ast.AST, ast.AST]]:
+    """(parameter, default expression, construct) for each parameter whose default is a mutable object created once at
+    definition time AND which the body edits in place or lets escape: the object - and whatever one call left in it - is
+    shared by every later call in the process"""
+    out = []
+    a = fn.node.args
+    pos = a.posonlyargs + a.args
+    pairs = list(zip(pos[len(pos) - len(a.defaults):], a.defaults)) + [(k, d) for k, d in zip(a.kwonlyargs, a.kw_defaults) if d is not None]
+    for arg, d in pairs:
+        if _mutable_literal(d):
+            c = _name_mutated_or_kept(fn, arg.arg)
+            if c is not None:
+                out.append((arg.arg, d, c))
+    return out
+
+
+def shared_class_state(ctx, modname: str) -> List[Tuple[str, str, ast.AST, Func, ast.AST]]:
+    """(class, attribute, definition, method, construct) for each mutable object bound at class level that a method edits
+    in place through self / cls / the class name: one object for all instances"""
+    out = []
+    m = ctx.prog.module(modname)
+    for st in ast.walk(m.tree):
+        if not isinstance(st, ast.ClassDef):
+            continue
+        attrs = {}
+        for b in st.body:
+            if isinstance(b, (ast.Assign, ast.AnnAssign)) and b.value is not None and _mutable_literal(b.value):
+                for t in (b.targets if isinstance(b, ast.Assign) else [b.target]):
+                    if isinstance(t, ast.Name):
+                        attrs[t.id] = b
+        if not attrs:
+            continue
+        for fn in m.funcs.values():
+            if fn.cls != st.name and not fn.qual.split(":")[-1].startswith(st.name + "."):
+                continue
+            rebound = {t.attr for x in walk_no_defs(fn.node) if isinstance(x, ast.Assign) for t in x.targets
+                       if isinstance(t, ast.Attribute) and isinstance(t.value, ast.Name) and t.value.id == "self"} if fn.name == "__init__" else set()
+            for x in walk_no_defs(fn.node):
+                tgt = None
+                if isinstance(x, ast.Call) and isinstance(x.func, ast.Attribute) and x.func.attr in MUTATING_TAILS:
+                    tgt = x.func.value
+                elif isinstance(x, (ast.Assign, ast.AugAssign)):
+                    for t in (x.targets if isinstance(x, ast.Assign) else [x.target]):
+                        if isinstance(t, ast.Subscript):
+                            tgt = t.value
+                if isinstance(tgt, ast.Attribute) and isinstance(tgt.value, ast.Name) and tgt.value.id in ("self", "cls", st.name) and tgt.attr in attrs:
+                    out.append((st.name, tgt.attr, attrs[tgt.attr], fn, x))
+        # an attribute re-bound per instance in __init__ is not shared
+        init = next((f for f in m.funcs.values() if f.name == "__init__" and (f.cls == st.name or f.qual.split(":")[-1].startswith(st.name + "."))), None)
+        if init is not None:
+            per_inst = {t.attr for x in walk_no_defs(init.node) if isinstance(x, (ast.Assign, ast.AnnAssign)) for t in (x.targets if isinstance(x, ast.Assign) else [x.target])
+                        if isinstance(t, ast.Attribute) and isinstance(t.value, ast.Name) and t.value.id == "self"}
+            out = [o for o in out if not (o[0] == st.name and o[1] in per_inst)]
+    return out
+
+
+def late_binding_closures(ctx, fn: Func) -> List[Tuple[ast.AST, Set[str], ast.AST]]:
+    """(closure, loop variables it reads free, loop) for each lambda / nested def created inside a loop or comprehension
+    that reads the loop variable as a free variable and is not called on the spot: all the closures collected over the
+    iterations see the variable's LAST value when they finally run (the idiom `lambda S=sh: f(S)` binds per iteration)"""
+    out = []
+    pm: Dict[int, ast.AST] = {}
+    for p in ast.walk(fn.node):
+        for c in ast.iter_child_nodes(p):
+            pm[id(c)] = p
+
+    def loops():
+        for x in ast.walk(fn.node):
+            if isinstance(x, (ast.For, ast.AsyncFor)):
+                yield x, {y.id for y in ast.walk(x.target) if isinstance(y, ast.Name)}, x.body
+            elif isinstance(x, (ast.ListComp, ast.SetComp, ast.DictComp, ast.GeneratorExp)):
+                tv = {y.id for g in x.generators for y in ast.walk(g.target) if isinstance(y, ast.Name)}
+                yield x, tv, ([x.key, x.value] if isinstance(x, ast.DictComp) else [x.elt])
+
+    for lp, tv, body in loops():
+        for b in body:
+            for x in ast.walk(b):
+                if isinstance(x, ast.Lambda):
+                    params = {a.arg for a in x.args.posonlyargs + x.args.args + x.args.kwonlyargs} | ({x.args.vararg.arg} if x.args.vararg else set()) | ({x.args.kwarg.arg} if x.args.kwarg else set())
+                    free = {y.id for y in ast.walk(x.body) if isinstance(y, ast.Name) and isinstance(y.ctx, ast.Load)} - params
+                    inner = x
+                elif isinstance(x, (ast.FunctionDef, ast.AsyncFunctionDef)) and x is not fn.node:
+                    params = {a.arg for a in x.args.posonlyargs + x.args.args + x.args.kwonlyargs}
+                    stores = {y.id for st in x.body for y in ast.walk(st) if isinstance(y, ast.Name) and isinstance(y.ctx, ast.Store)}
+                    free = {y.id for st in x.body for y in ast.walk(st) if isinstance(y, ast.Name) and isinstance(y.ctx, ast.Load)} - params - stores
+                    inner = x
+                else:
+                    continue
+                hit = free & tv
+                if not hit:
+                    continue
+                if isinstance(inner, (ast.FunctionDef, ast.AsyncFunctionDef)):
+                    # a helper that is only ever called by name inside this iteration runs with the current value - unless
+                    # it builds (and hands out) an inner closure that reads the variable later
+                    uses = [y for bb in body for y in ast.walk(bb) if isinstance(y, ast.Name) and y.id == inner.name and isinstance(y.ctx, ast.Load)]
+                    only_called = bool(uses) and all(isinstance(pm.get(id(y)), ast.Call) and pm[id(y)].func is y for y in uses)
+                    builds = any(isinstance(z, (ast.Lambda, ast.FunctionDef)) and z is not inner and
+                                 ({w.id for w in ast.walk(z) if isinstance(w, ast.Name) and isinstance(w.ctx, ast.Load)} & hit) for z in ast.walk(inner))
+                    if only_called and not builds:
+                        continue
+                par = pm.get(id(inner))
+                if isinstance(par, ast.Call) and par.func is inner:
+                    continue  # called on the spot
+                if isinstance(par, ast.keyword):
+                    gp = pm.get(id(par))
+                    if isinstance(gp, ast.Call) and (dotted(gp.func) or "").split(".")[-1] in ("sorted", "sort", "max", "min", "filter", "map") :
+                        continue  # a key / predicate consumed inside this iteration
+                out.append((inner, hit, lp))
+    return out
+
+
 # ------------------------------------------------------------------ positive controls (zero-expected rules)
 _PROBES = '''
 import functools as _hz_functools
@@ -541,6 +679,25 @@ def _hz_memo_user_ok(p):
     ks = list(_hz_memo(p))
     last = ks.pop()
     return ks, last, _hz_memo_ok(p)
+def _hz_default(x, acc=[]):
+    acc.append(x)
+    return acc
+def _hz_default_ok(x, acc=None, opts={}):
+    acc = [] if acc is None else acc
+    acc.append(x)
+    return acc, opts.get("k")
+def _hz_late(shards, f):
+    return [(i, (lambda: f(sh))) for i, sh in enumerate(shards)]
+def _hz_late_ok(shards, f):
+    return [(i, (lambda S=sh: f(S))) for i, sh in enumerate(shards)], sorted(shards, key=lambda s: s)
+class _HzShared:
+    seen = {}
+    tags = []
+    def __init__(self):
+        self.tags = []
+    def note(self, k):
+        self.seen[k] = True
+        self.tags.append(k)
 class _HzBox:
     def __init__(self, cap, cb):
         self.cap = cap
@@ -591,6 +748,14 @@ def controls(ctx, host_module: str, kinds: Sequence[str]) -> str:
         a, b, c = f("shrink"), f("shrink_ok"), f("shrink_empty")
         got["loop"] = (len(loop_escapes(pc, a, loops(a)[0])), len(loop_escapes(pc, b, loops(b)[0])))
         got["nonempty"] = (int(not nonempty_implied(loops(c)[0].test, "self.d")), int(not nonempty_implied(loops(b)[0].test, "self.d")))
+    if "state" in kinds:
+        g = lambda nm: m.funcs[[k for k in m.funcs if k.split(".")[-1] == nm][0]]
+        got["default"] = (len(mutable_defaults(pc, g("_hz_default"))), len(mutable_defaults(pc, g("_hz_default_ok"))))
+        sh = [o for o in shared_class_state(pc, host_module) if o[0] == "_HzShared"]
+        got["classattr"] = (len([o for o in sh if o[1] == "seen"]), len([o for o in sh if o[1] == "tags"]))
+    if "late" in kinds:
+        g = lambda nm: m.funcs[[k for k in m.funcs if k.split(".")[-1] == nm][0]]
+        got["late"] = (len(late_binding_closures(pc, g("_hz_late"))), len(late_binding_closures(pc, g("_hz_late_ok"))))
     bad = {k: v for k, v in got.items() if not (v[0] >= 1 and v[1] == 0)}
     if bad:
         raise AnalysisError(f"hazard positive control failed: {bad}")
